@@ -366,7 +366,9 @@ class KeyExchange(object):
                                     output_length=48)
             verifyBytes = handshakeHashes.digestSSL(masterSecret, b"")
         elif version in ((3, 1), (3, 2)):
-            if key_type != "ecdsa":
+            # RFC 4346, section 7.4.8: only RSA signs the MD5+SHA-1
+            # concatenation, DSA (like ECDSA) signs the SHA-1 hash alone
+            if key_type not in ("ecdsa", "dsa"):
                 verifyBytes = handshakeHashes.digest()
             else:
                 verifyBytes = handshakeHashes.digest("sha1")
